@@ -13,7 +13,12 @@ type Style struct {
 	SelfClose   bool   // write empty elements as <a/>
 	AttrNewline bool   // newline between attributes
 	CharRefText bool   // write non-ASCII text as character references
+	// Misc: what XML allows around the document element - "" nothing, "nl" / "crlf" / "blank-lines" white space after it,
+	// "comment" / "pi" a comment / processing instruction after it, "lead-comment" a comment (and a line break) before it
+	Misc string
 }
+
+var miscAfter = map[string]string{"nl": "\n", "crlf": "\r\n", "blank-lines": "\n\n  \n", "comment": "\n<!-- end of message -->", "pi": "<?serializer done?>\n"}
 
 func wrText(s string, st Style, b *strings.Builder) {
 	for _, r := range s {
@@ -72,7 +77,11 @@ func Write(n *Node, st Style) []byte {
 	case "bare":
 		b.WriteString(`<?xml version="1.0"?>`)
 	}
+	if st.Misc == "lead-comment" {
+		b.WriteString("<!-- generated -->\n")
+	}
 	writeElem(n, st, &b)
+	b.WriteString(miscAfter[st.Misc])
 	return []byte(b.String())
 }
 
